@@ -18,12 +18,13 @@ import (
 
 // DirPlan is what happens on one direction of one stream.
 type DirPlan struct {
-	Writes          []int  `json:"writes"`           // Write sizes in order
-	WriteDeadlineMs int    `json:"wdl,omitempty"`    // 0 = none
-	End             string `json:"end"`              // cw | close | none
-	Reads           []int  `json:"reads"`            // buffer sizes, cycled
-	ReadMode        string `json:"rmode"`            // drain | some | stall
-	ReadCount       int    `json:"rcount,omitempty"` // some: number of reads
+	Writes          []int  `json:"writes"`             // Write sizes in order
+	WriteDeadlineMs int    `json:"wdl,omitempty"`      // 0 = none
+	End             string `json:"end"`                // cw | close | none
+	EndAfterMs      int    `json:"endafter,omitempty"` // > 0: End runs concurrently with the writes, after this delay
+	Reads           []int  `json:"reads"`              // buffer sizes, cycled
+	ReadMode        string `json:"rmode"`              // drain | some | stall
+	ReadCount       int    `json:"rcount,omitempty"`   // some: number of reads
 	ReadDeadlineMs  int    `json:"rdl,omitempty"`
 	StallMs         int    `json:"stall,omitempty"`  // sleep before the first read
 	ReaderClose     bool   `json:"rclose,omitempty"` // the reader calls Close() when it stops
@@ -222,6 +223,28 @@ func runWorkload(wl Workload) *traceResult {
 			if d.WriteDeadlineMs > 0 {
 				s.SetWriteDeadline(time.Now().Add(time.Duration(d.WriteDeadlineMs) * time.Millisecond))
 			}
+			endDone := make(chan struct{})
+			endAction := func() {
+				defer close(endDone)
+				switch d.End {
+				case "cw":
+					r.closeStarted.Store(true)
+					t0 := time.Now()
+					err := s.CloseWrite()
+					res.calls.add("closewrite", t0, lim(0), err)
+				case "close":
+					r.closeStarted.Store(true)
+					t0 := time.Now()
+					err := s.Close()
+					res.calls.add("close", t0, lim(0), err)
+				}
+			}
+			if d.EndAfterMs > 0 {
+				go func() {
+					time.Sleep(time.Duration(d.EndAfterMs) * time.Millisecond)
+					endAction()
+				}()
+			}
 			off := 0
 			for _, sz := range d.Writes {
 				buf := make([]byte, sz)
@@ -238,18 +261,10 @@ func runWorkload(wl Workload) *traceResult {
 				}
 			}
 			r.wlen = off
-			switch d.End {
-			case "cw":
-				r.closeStarted.Store(true)
-				t0 := time.Now()
-				err := s.CloseWrite()
-				res.calls.add("closewrite", t0, lim(0), err)
-			case "close":
-				r.closeStarted.Store(true)
-				t0 := time.Now()
-				err := s.Close()
-				res.calls.add("close", t0, lim(0), err)
+			if d.EndAfterMs == 0 {
+				endAction()
 			}
+			<-endDone
 		}()
 		go func() { // reader
 			defer sideWG.Done()
@@ -652,6 +667,9 @@ func genWorkload(r *rand.Rand, thorough, zeroReads, concurrent bool) Workload {
 			}
 			if r.Intn(5) == 0 {
 				dp.StallMs = 1 + r.Intn(15)
+			}
+			if total > 0 && dp.End != "none" && r.Intn(5) == 0 {
+				dp.EndAfterMs = 1 + r.Intn(8)
 			}
 			// nobody may block for ever: a writer without a deadline needs a
 			// reader that drains to the end or closes the stream when it stops;
